@@ -70,6 +70,7 @@ struct World {
     cocls::future<int> fut;
     cocls::promise<int> *p = nullptr;   // heap object: alive until its destructor has returned
     const void *p_owner_addr = nullptr;
+    std::map<std::string, const void *> q_owner_addr;   // masg: the assigned-to promise of each such thread
     std::map<std::string, std::string> rkind, wkind;
     std::map<std::string, int> tid;          // thread name -> vsched id
     std::map<std::string, std::string> rres;
@@ -146,11 +147,13 @@ static std::string pend_of(World &w, const std::string &name, bool resolver) {
         case op_t::xchg:
             if (e.obj == slot) return "swap";
             if (e.obj == owner) return "claim";
+            if (w.q_owner_addr.count(name) && e.obj == w.q_owner_addr[name]) return "mclaim_own";
             break;
         case op_t::load: case op_t::conv:
             if (e.obj == slot) return "check";
             return "dload";                       // a promise's owner pointer (p itself or a moved-to promise)
         case op_t::store: case op_t::assign:
+            if (w.q_owner_addr.count(name) && e.obj == w.q_owner_addr[name]) return "massign";
             if (e.obj != slot && e.obj != owner) return "flagstore";
             break;
         case op_t::notify: return "notify";
@@ -233,6 +236,8 @@ struct Explore {
 static const char *action_of(const std::string &pend) {
     if (pend == "claim") return "Claim";
     if (pend == "dtor") return "DtorStart";
+    if (pend == "mclaim_own") return "MClaimOwn";
+    if (pend == "massign") return "MAssign";
     if (pend == "dload") return "DLoad";
     if (pend == "swap") return "SwapReady";
     if (pend == "flagstore") return "FlagStore";
@@ -292,6 +297,11 @@ static void run_one(const Scenario &sc, Reporter &rep, Explore *ex) {
             } else if (kind == "mdes") {
                 lib_scope s;
                 cocls::promise<int> q(std::move(*w.p));
+            } else if (kind == "masg") {
+                lib_scope s;
+                cocls::promise<int> q;
+                { alloc_pause np; w.q_owner_addr[name] = &(q.*PProbe::owner_mp()); }
+                q = std::move(*w.p);
             } else if (kind == "dtor") {
                 vsched::mark("dtor");
                 lib_scope s;
